@@ -105,8 +105,138 @@ def decoy_imports(text: str, added: list[str]) -> str:
     return text.rstrip("\n") + "\n\n\ndef decoy_scope():\n" + body + "\n    return None\n"
 
 
-def apply(text: str, vec: dict, added_imports: list[str] | None = None) -> str:
+ARGS = ["asis", "kwspread-last", "kwspread-mid", "extra-kw", "dict-spread", "same-line-pair"]
+
+
+def changed_lines(before: str, after: str) -> set[int]:
+    import difflib
+
+    a, b = before.split("\n"), after.split("\n")
+    out = set()
+    for tag, i1, i2, _j1, _j2 in difflib.SequenceMatcher(a=a, b=b, autojunk=False).get_opcodes():
+        if tag in ("replace", "delete"):
+            out.update(range(i1 + 1, i2 + 1))
+    return out
+
+
+def extend_args(text: str, kind: str, lines: set[int]) -> str | None:
+    """Extend the argument list of every call that spans one of `lines` (1-based).  libcst is used here only as a
+    parser / printer of the INPUT program; None when the variation does not apply."""
+    import libcst as cst
+    from libcst.metadata import MetadataWrapper, PositionProvider
+
+    try:
+        wrapper = MetadataWrapper(cst.parse_module(text))
+    except Exception:  # noqa: BLE001
+        return None
+    applied = [0]
+
+    class T(cst.CSTTransformer):
+        METADATA_DEPENDENCIES = (PositionProvider,)
+
+        def leave_Call(self, original_node, updated_node):
+            pos = self.get_metadata(PositionProvider, original_node)
+            if not any(pos.start.line <= ln <= pos.end.line for ln in lines):
+                return updated_node
+            args = list(updated_node.args)
+            spread = cst.Arg(value=cst.Name("extra_kw"), star="**")
+            if kind == "kwspread-last":
+                if any(a.star == "**" for a in args):
+                    return updated_node
+                new = args + [spread]
+            elif kind == "kwspread-mid":
+                idx = next((i for i, a in enumerate(args) if a.keyword is not None), None)
+                if any(a.star == "**" for a in args):
+                    return updated_node
+                sep = cst.Comma(whitespace_after=cst.SimpleWhitespace(" "))
+                if idx is None:
+                    # no keyword argument yet: the spread is followed by one more keyword
+                    extra = cst.Arg(keyword=cst.Name("zz_extra"), value=cst.Name("zz_value"), equal=cst.AssignEqual(cst.SimpleWhitespace(""), cst.SimpleWhitespace("")))
+                    if args and args[-1].comma is cst.MaybeSentinel.DEFAULT:
+                        args[-1] = args[-1].with_changes(comma=sep)
+                    new = args + [spread.with_changes(comma=sep), extra]
+                else:
+                    new = args[:idx] + [spread.with_changes(comma=sep)] + args[idx:]
+            elif kind == "extra-kw":
+                if any(a.star == "**" for a in args):
+                    return updated_node
+                new = args + [cst.Arg(keyword=cst.Name("zz_extra"), value=cst.Name("zz_value"), equal=cst.AssignEqual(cst.SimpleWhitespace(""), cst.SimpleWhitespace("")))]
+            elif kind == "dict-spread":
+                new, hit = [], False
+                for a in args:
+                    if isinstance(a.value, cst.Dict) and not any(isinstance(e, cst.StarredDictElement) for e in a.value.elements):
+                        els = [cst.StarredDictElement(cst.Name("extra_map"), comma=cst.Comma(whitespace_after=cst.SimpleWhitespace(" ")))] + list(a.value.elements)
+                        if len(els) == 1:
+                            els = [cst.StarredDictElement(cst.Name("extra_map"))]
+                        a = a.with_changes(value=a.value.with_changes(elements=els))
+                        hit = True
+                    new.append(a)
+                if not hit:
+                    return updated_node
+            else:
+                raise ValueError(kind)
+            if len(new) > len(args) and args and kind not in ("kwspread-mid", "dict-spread"):
+                # the former last argument needs a separator
+                last = new[len(args) - 1]
+                if last.comma is cst.MaybeSentinel.DEFAULT:
+                    new[len(args) - 1] = last.with_changes(comma=cst.Comma(whitespace_after=cst.SimpleWhitespace(" ")))
+            applied[0] += 1
+            return updated_node.with_changes(args=new)
+
+    try:
+        out = wrapper.visit(T()).code
+    except Exception:  # noqa: BLE001
+        return None
+    return out if applied[0] else None
+
+
+def same_line_pair(text: str, lines: set[int]) -> str | None:
+    """`x = <call>` / `<call>` on one of `lines` becomes `x = (<call>, <call>)` / `(<call>, <call>)`: two sites of the
+    same rule that start and end on the same line."""
+    import libcst as cst
+    from libcst.metadata import MetadataWrapper, PositionProvider
+
+    try:
+        wrapper = MetadataWrapper(cst.parse_module(text))
+    except Exception:  # noqa: BLE001
+        return None
+    applied = [0]
+
+    def pair(v):
+        return cst.Tuple(elements=[cst.Element(v, comma=cst.Comma(whitespace_after=cst.SimpleWhitespace(" "))), cst.Element(v)],
+                         lpar=[cst.LeftParen()], rpar=[cst.RightParen()])
+
+    class T(cst.CSTTransformer):
+        METADATA_DEPENDENCIES = (PositionProvider,)
+
+        def leave_SimpleStatementLine(self, original_node, updated_node):
+            pos = self.get_metadata(PositionProvider, original_node)
+            if pos.start.line != pos.end.line or pos.start.line not in lines or len(updated_node.body) != 1:
+                return updated_node
+            st = updated_node.body[0]
+            if isinstance(st, (cst.Expr, cst.Assign)) and isinstance(st.value, cst.Call):
+                applied[0] += 1
+                return updated_node.with_changes(body=[st.with_changes(value=pair(st.value))])
+            return updated_node
+
+    try:
+        out = wrapper.visit(T()).code
+    except Exception:  # noqa: BLE001
+        return None
+    return out if applied[0] else None
+
+
+def apply(text: str, vec: dict, added_imports: list[str] | None = None, expected: str | None = None) -> str | None:
     t = text
+    if vec.get("args", "asis") != "asis":
+        if expected is None:
+            return None
+        if vec["args"] == "same-line-pair":
+            t = same_line_pair(t, changed_lines(text, expected))
+        else:
+            t = extend_args(t, vec["args"], changed_lines(text, expected))
+        if t is None:
+            return None
     if vec.get("imp") == "local":
         t = local_imports(t)
     if vec.get("imp") == "decoy":
